@@ -542,3 +542,173 @@ pub fn write_evidence(plan: &Plan, tier: &str, seed: u64, out: &CheckOutcome, vi
         serde_json::to_string_pretty(&ev).unwrap(),
     );
 }
+
+// ---------------------------------------------------------------------------
+// Systematic sweep (DESIGN.md 4.7): every crash point and every single
+// datastore write fault of a set of fault-free base scenarios.
+// ---------------------------------------------------------------------------
+
+pub struct SweepOutcome {
+    pub bases: u64,
+    pub crash_points: u64,
+    pub write_faults: u64,
+    pub runs: u64,
+    pub probes_resolved: u64,
+    pub probes_total: u64,
+    pub c08_evaluations: u64,
+    pub wall_s: f64,
+    pub target: Vec<(u64, RunCfg, Vec<Op>, Violation)>,
+    pub known: BTreeMap<(String, String, String), (u64, String)>,
+    pub sample: Option<Value>,
+}
+
+pub fn run_sweep(prop: &'static str, base_seed: u64, n_bases: u64, findings: &replay::FindingsFile) -> SweepOutcome {
+    use super::node::{Method, RpcFault};
+    use super::sched::SweepSched;
+    let t0 = Instant::now();
+    let sweep_seed = mix(base_seed, 0x5EE9);
+    // Base scenarios.
+    let mut jobs: Vec<(u64, RunCfg, Vec<Op>, &'static str)> = Vec::new();
+    let mut bases = 0;
+    let mut crash_points = 0;
+    let mut write_faults = 0;
+    for b in 0..n_bases {
+        let seed = mix(sweep_seed, b);
+        let cfg = cfg_for(seed, "sweepbase");
+        let mut sim = Sim::new(seed, cfg.clone());
+        let mut sched = RandomSched::new(mix(seed, 0x5C4ED), false);
+        sim.run(&mut sched);
+        let ops: Vec<Op> = sim
+            .ops_done
+            .iter()
+            .take_while(|o| !matches!(o, Op::QuiesceMark))
+            .cloned()
+            .collect();
+        if ops.is_empty() {
+            continue;
+        }
+        bases += 1;
+        for k in 0..=ops.len() {
+            for lose in [false, true] {
+                let mut pre = ops[..k].to_vec();
+                pre.push(Op::Crash { lose_answers: lose });
+                jobs.push((seed, cfg.clone(), pre, "crash"));
+                crash_points += 1;
+            }
+        }
+        for (k, op) in ops.iter().enumerate() {
+            if let Op::Apply { rpc, fault: RpcFault::None, .. } = op {
+                if rpc.method == Method::Datastore {
+                    for f in [RpcFault::Transport, RpcFault::AppliedButError] {
+                        let mut pre = ops.clone();
+                        pre[k] = Op::Apply {
+                            rpc: rpc.clone(),
+                            fault: f,
+                            deliver: true,
+                        };
+                        jobs.push((seed, cfg.clone(), pre, "write-fault"));
+                        write_faults += 1;
+                    }
+                }
+            }
+        }
+    }
+    let next = AtomicU64::new(0);
+    let results = Mutex::new((0u64, 0u64, 0u64, 0u64, Vec::new(), BTreeMap::new(), None::<Value>));
+    let workers = std::thread::available_parallelism().map(|n| n.get()).unwrap_or(4);
+    std::thread::scope(|scope| {
+        for _ in 0..workers {
+            scope.spawn(|| loop {
+                let i = next.fetch_add(1, Ordering::SeqCst) as usize;
+                if i >= jobs.len() {
+                    break;
+                }
+                let (seed, cfg, pre, kind) = &jobs[i];
+                let mut sim = Sim::new(*seed, cfg.clone());
+                let mut sched = SweepSched {
+                    prefix: pre.clone(),
+                    pos: 0,
+                    tail: RandomSched::new_tail(mix(*seed, 0x7A11 + i as u64), true),
+                };
+                sim.run(&mut sched);
+                let mut r = results.lock().unwrap();
+                r.0 += 1;
+                r.1 += sim.or.reach.get("c09.probe-resolved").copied().unwrap_or(0);
+                r.2 += sim.or.reach.get("c09.hash-probed").copied().unwrap_or(0);
+                r.3 += sim
+                    .or
+                    .reach
+                    .get("c08.invariant-evaluated-with-live-part")
+                    .copied()
+                    .unwrap_or(0);
+                if r.6.is_none() && *kind == "write-fault" {
+                    r.6 = Some(json!({
+                        "kind": kind, "seed": seed,
+                        "ops": sim.ops_done.iter().take(50).map(|o| serde_json::to_string(o).unwrap()).collect::<Vec<_>>(),
+                    }));
+                }
+                for v in &sim.or.violations {
+                    if v.prop == prop {
+                        if let Some(k) = replay::is_known(findings, v) {
+                            let e = r
+                                .5
+                                .entry((v.prop.to_string(), v.rule.to_string(), v.key.clone()))
+                                .or_insert((0u64, k.text.clone()));
+                            e.0 += 1;
+                        } else {
+                            r.4.push((i, *seed, cfg.clone(), sim.ops_done.clone(), v.clone()));
+                        }
+                    }
+                }
+            });
+        }
+    });
+    let (runs, resolved, probed, c08, mut target, known, sample) = results.into_inner().unwrap();
+    target.sort_by_key(|t| t.0);
+    SweepOutcome {
+        bases,
+        crash_points,
+        write_faults,
+        runs,
+        probes_resolved: resolved,
+        probes_total: probed,
+        c08_evaluations: c08,
+        wall_s: t0.elapsed().as_secs_f64(),
+        target: target.into_iter().map(|(_, s, c, o, v)| (s, c, o, v)).collect(),
+        known,
+        sample,
+    }
+}
+
+/// Replay file for a violation found with an explicit op list.
+pub fn make_replay_from_ops(seed: u64, cfg: &RunCfg, ops: &[Op], v: &Violation, note: &str) -> Result<(ReplayFile, String), String> {
+    let s2 = replay::run_script(seed, cfg, ops, false);
+    if !s2.or.violations.iter().any(|x| replay::same(x, v.prop, v.rule, &v.key)) {
+        return Err(format!("scripted replay does not reproduce {} {}", v.prop, v.rule));
+    }
+    let min = replay::minimise(seed, cfg, ops, v.prop, v.rule, &v.key, 1500);
+    let s3 = replay::run_script(seed, cfg, &min, false);
+    let found = s3
+        .or
+        .violations
+        .iter()
+        .find(|x| replay::same(x, v.prop, v.rule, &v.key))
+        .cloned()
+        .ok_or_else(|| "minimised schedule does not reproduce".to_string())?;
+    let rf = ReplayFile {
+        harness_version: replay::HARNESS_VERSION,
+        engine: "E1".into(),
+        property: v.prop.to_string(),
+        rule: v.rule.to_string(),
+        key: v.key.clone(),
+        seed,
+        cfg: cfg.clone(),
+        ops: min,
+        detail: found.detail.clone(),
+        loghash: format!("{:016x}", s3.log.0),
+        original_ops: ops.len(),
+        note: note.to_string(),
+    };
+    let path = replay::write_replay("/verif/replays", &rf).map_err(|e| e.to_string())?;
+    Ok((rf, path))
+}
